@@ -72,6 +72,10 @@ func inputHash(in caseIn) string {
 		for _, x := range c.Chunks {
 			binary.Write(h, binary.BigEndian, uint32(x))
 		}
+		if c.Stall {
+			binary.Write(h, binary.BigEndian, uint32(c.FirstLen))
+			h.Write(c.Rest)
+		}
 	}
 	return hex.EncodeToString(h.Sum(nil)[:8])
 }
@@ -308,15 +312,19 @@ func runConn(addr string, in connIn, patience time.Duration) connObs {
 		}
 	}
 	o.Out = out
+	o.Closed, o.Reset = closeKind(rerr)
+	return o
+}
+
+// closeKind: how the reader saw the connection end: (closed by the server, seen as a reset)
+func closeKind(rerr error) (closed, reset bool) {
 	switch {
 	case rerr == io.EOF:
-		o.Closed = true
+		return true, false
 	case errors.Is(rerr, syscall.ECONNRESET) || errors.Is(rerr, syscall.EPIPE):
-		o.Closed, o.Reset = true, true
-	default:
-		o.Closed = false // deadline: the server kept the connection open
+		return true, true
 	}
-	return o
+	return false, false // deadline: the server kept the connection open
 }
 
 func (s *server) runCase(in caseIn) caseObs {
@@ -335,7 +343,9 @@ func (s *server) runCase(in caseIn) caseObs {
 	obs.GorBefore = runtime.NumGoroutine()
 	runtime.ReadMemStats(&m0)
 	obs.Conns = make([]connObs, len(in.Conns))
-	if len(in.Conns) == 1 {
+	if len(in.Conns) > 0 && in.Conns[0].Stall {
+		obs.Conns = runStallConns(s.addr, in.Conns)
+	} else if len(in.Conns) == 1 {
 		obs.Conns[0] = runConn(s.addr, in.Conns[0], patience[0])
 	} else {
 		var wg sync.WaitGroup
@@ -673,11 +683,20 @@ func render(in caseIn, obs caseObs) Case {
 	nontrivial := false
 	for i, c := range in.Conns {
 		o := obs.Conns[i]
-		conns = append(conns, fmt.Sprintf("(mkConn %s %s %s %s)", cbytes(c.Stream), cbytes(o.Out), CBool(o.Early), CBool(o.Closed)))
+		conns = append(conns, fmt.Sprintf("(mkConn %s %s %s %s %s %s)", cbytes(c.Stream), cbytes(o.Out), CBool(o.Early), CBool(o.Closed),
+			CBool(c.Stall), cbytes(c.Rest)))
 		xids, clean := replyXids(o.Out)
 		fmt.Fprintf(&txt, " conn %d: %s\n  stream (%d bytes, %d writes): %s\n  server sent %d bytes, reply XIDs %v%s; closed=%v before-client-EOF=%v reset=%v\n",
 			i, c.Desc, len(c.Stream), len(c.Chunks), shortHex(c.Stream), len(o.Out), xids,
 			map[bool]string{true: "", false: " + INCOMPLETE RECORD"}[clean], o.Closed, o.Early, o.Reset)
+		if c.Stall {
+			fmt.Fprintf(&txt, "  STALLED longer than the (shortened) read deadline after those bytes; server closed before the rest was sent=%v; then sent %d bytes: %s\n",
+				o.Early, len(c.Rest), shortHex(c.Rest))
+			tags["stalled_connections"]++
+			if o.Early {
+				tags["stalled_closed_at_deadline"]++
+			}
+		}
 		tags["connections"]++
 		tags["replies"] += len(xids)
 		tags["stream_bytes"] += len(c.Stream)
